@@ -66,6 +66,23 @@ def run_check(prop, tier, seed, replay=None):
         if not ok:
             pr["failed"].append("leanchecker rejected " + mod.MODULE)
     broken = list(pr["failed"])
+    # further proof modules of the property, built and audited on their own (a table-dependent module that no longer
+    # builds must not hide the theorems of the others)
+    for (xmod, xthms) in getattr(mod, "EXTRA_MODULES", []):
+        xp = vlib.prove(xmod, xthms)
+        cov["obligations"] += xp["obligations"]
+        cov["discharged"] += xp["discharged"]
+        cov["theorems"] = cov["theorems"] + xthms
+        cov["checker_cmd"] += " ; " + xp["checker_cmd"]
+        cov["proof_wall_s"] += xp["wall_s"]
+        broken += xp["failed"]
+        if not xp["build_ok"]:
+            pr["build_log_tail"] = (pr.get("build_log_tail", "") + "\n" + xp.get("build_log_tail", ""))[-3000:]
+        if tier == "thorough" and xp["build_ok"]:
+            ok, out = vlib.leanchecker(xmod)
+            cov["leanchecker"] = cov.get("leanchecker", "ok") if ok else out
+            if not ok:
+                broken.append("leanchecker rejected " + xmod)
 
     # 2. correspondence + direct property search on the implementation
     rng = vlib.Rng(seed)
